@@ -6,6 +6,7 @@
 #include <vector>
 #include <string>
 #include <cstring>
+#include <new>
 #define VF_MAIN
 #include "vf.h"
 #include "CppUTest/TestHarness.h"
@@ -126,6 +127,7 @@ std::string render(const Program& p) {
 std::vector<int> parse_sizes(const char* text) { std::vector<int> v; const char* p = text; while ((p = strstr(p, "Leak size: "))) { v.push_back(atoi(p + 11)); p += 11; } std::sort(v.begin(), v.end()); return v; }
 int parse_total(const char* text) { if (strstr(text, "No memory leaks were detected")) return 0; const char* p = strstr(text, "Total number of leaks:"); return p ? atoi(p + 22) : -1; }
 
+alignas(16) char g_plugin_mem[sizeof(MemoryLeakWarningPlugin)];
 MemoryLeakWarningPlugin* g_plugin; MemoryLeakDetector* g_det;
 
 void run_program(const Program& p) {
@@ -142,7 +144,10 @@ void run_program(const Program& p) {
     reg.installPlugin(g_plugin);
     g_det->clearAllAccounting(mem_leak_period_all);
     g_det->enable();
-    g_plugin->expectedLeaks_ = 0; g_plugin->ignoreAllWarnings_ = false;      // every case starts from the plugin's initial state
+    // every case starts from a freshly constructed plugin AT THE SAME ADDRESS (the library keeps a static pointer to the
+    // first plugin ever constructed, which EXPECT_N_LEAKS / IGNORE_ALL_LEAKS_IN_TEST address); no private member is touched
+    g_plugin->~MemoryLeakWarningPlugin();
+    g_plugin = new (g_plugin_mem) MemoryLeakWarningPlugin("leakcheck");
     MemoryLeakWarningPlugin::turnOnDefaultNotThreadSafeNewDeleteOverloads();
     reg.runAllTests(result);                                  // no harness allocation in here
     const char* final_report = g_plugin->FinalReport(0);
@@ -202,8 +207,7 @@ int main(int argc, char** argv) {
     vf::init(argc, argv, "C07");
     MemoryLeakWarningPlugin::turnOffNewDeleteOverloads();
     g_det = MemoryLeakWarningPlugin::getGlobalDetector();
-    static MemoryLeakWarningPlugin plugin("leakcheck");       // first (and only) plugin: EXPECT_N_LEAKS/IGNORE_ALL_LEAKS address it
-    g_plugin = &plugin;
+    g_plugin = new (g_plugin_mem) MemoryLeakWarningPlugin("leakcheck");       // first (and only) plugin object: EXPECT_N_LEAKS/IGNORE_ALL_LEAKS address it
     bool T = vf::thorough();
     vf::info("rule", "programs of scripted tests under the real leak plugin; a script is a sequence of ops from {new, malloc, free own newest, free oldest block of an earlier test, EXPECT_N_LEAKS(1), EXPECT_N_LEAKS(2), IGNORE_ALL_LEAKS_IN_TEST, fail own check}, each placed in setup/body/teardown (phases non-decreasing); non-trivial = some test must get a leak failure");
     std::vector<TestScript> s2, s3; build_scripts(2, s2); build_scripts(3, s3);
